@@ -320,8 +320,8 @@ CLASSES = ["both_empty", "one_empty", "repeated", "identical", "diagonal", "infi
 # ---- call histories (harness/history.py): all steps of one history run in one interpreter, equal-valued
 # arguments are the same objects, every step must satisfy the predicate of a single call
 STEP_CLASSES = ["plain", "mixed", "mixed", "diagonal", "repeated", "one_empty", "infinite", "thin", "both_empty"]
-FAULT_KINDS = ["nan_birth", "nan_birth", "neginf_birth", "posinf_birth", "nan_both", "one_column", "flat", "cube",
-               "strings", "none"]
+FAULT_KINDS = ["nan_birth"] * 4 + ["neginf_birth"] * 2 + ["posinf_birth", "nan_both", "nan_both",      # rejected by the solver
+               "one_column", "flat", "cube", "strings", "none"]                                        # rejected on entry
 
 
 def _step(rng, nmax, cls=None, sizes=None):
